@@ -118,5 +118,4 @@ TraceAccepted == /\ PrintT(<<"HIGHWATER", TLCGet(1), Len(Trace)>>)
                  /\ TLCGet(1) = Len(Trace) + 1
 ASSUME TLCSet(1, 0)
 
-MCKindTrace == [a |-> "ok", b |-> "ok", c |-> "ok", bad |-> "fail", zz |-> "cunknown", so |-> "sunknown"]
 =============================================================================
